@@ -338,6 +338,14 @@ func backwardAll(v ssa.Value) map[ssa.Value]bool {
 				}
 			}
 		}
+		// a local cell: whatever was stored into it
+		if a, ok := v.(*ssa.Alloc); ok && a.Referrers() != nil {
+			for _, ref := range *a.Referrers() {
+				if st, ok := ref.(*ssa.Store); ok && st.Addr == ssa.Value(a) {
+					walk(st.Val)
+				}
+			}
+		}
 	}
 	walk(v)
 	return seen
